@@ -26,6 +26,15 @@ class C17(Prop):
         "NV.C17.switch_tables_sorted_after_patch",
         "NV.C17.patch_roundtrip",
         "NV.C17.all_string_switches_patched",
+        "NV.C17.quickSort_perm",
+        "NV.C17.quickSort_sorted",
+        "NV.C17.sort_perm_from_quicksort",
+        "NV.C17.function_table_sorted",
+        "NV.C17.patch_in_total",
+        "NV.C17.relocation_members_tied",
+        "NV.C17.every_pointer_member_handled",
+        "NV.C17.only_switch_keys_are_addresses",
+        "NV.C17.qsort_statements_tied",
         "NV.C17.layout_write_read_agree",
         "NV.C17.layout_checksum_covers_file",
     ]
@@ -162,6 +171,8 @@ class C17(Prop):
                               "(found: %s)" % (m.group(1).strip() if m else "site not found"))
         if len(re.findall(r"add_to_mem_block\s*\(A_PATCH", ic)) != 1:
             raise X.TieBroken("icode.c:A_PATCH", "expected exactly one place that appends to A_PATCH")
+        layout += self.gen_relocation(src, lb, ic)
+        layout += self.gen_qsort()
         return "\n".join([
             "/-- C: `static uint32_t driver_id` in lib/lpc/program/binaries.c -/",
             "def driverId : Nat := %d" % int(drv, 0),
@@ -170,6 +181,95 @@ class C17(Prop):
             "/-- C: check_times() answers 0 (out of date) when `st.st_mtime %s mtime` -/" % op,
             "def checkTimesStrict : Bool := %s" % ("true" if op == ">" else "false"),
         ] + layout)
+
+    def gen_relocation(self, src, lb, ic):
+        """which pointer members of program_t exist, which of them locate_out / locate_in relocate (and which only under
+        `if (prog->type_start)`), which load_binary re-creates, and which operands the code generator emits as addresses"""
+        ph = open(os.path.join(E.REPO, "lib/lpc/program.h")).read()
+        m = re.search(r"typedef struct program_s\s*\{(.*?)\}\s*program_t;", ph, re.S)
+        if not m:
+            raise X.TieBroken("program.h:program_t", "struct program_s not found")
+        body = re.sub(r"/\*.*?\*/", "", m.group(1), flags=re.S)
+        ptrs, scalars = [], []
+        for decl in body.split(";"):
+            decl = " ".join(l for l in decl.splitlines() if not l.strip().startswith("#")).strip()
+            if not decl:
+                continue
+            mm = re.match(r"^[\w\s]+?(\*+)\s*(\w+)$", decl)
+            if mm:
+                ptrs.append(mm.group(2))
+            else:
+                mm = re.match(r"^[\w\s]+?\b(\w+)$", decl)
+                if not mm:
+                    raise X.TieBroken("program.h:program_t", "member declaration not understood: %r" % decl)
+                scalars.append(mm.group(1))
+
+        def members(fn, macro):
+            a = src.index("\n%s (program_t * prog)" % fn)
+            text = src[a:src.index("return 1;", a)]
+            text = re.sub(r"#\s*(ifdef|endif)[^\n]*", "", text)
+            cond = re.search(r"if\s*\(prog->type_start\)\s*\{(.*?)\}", text, re.S)
+            if not cond:
+                raise X.TieBroken("binaries.c:%s" % fn, "the `if (prog->type_start)` block was not found")
+            out = []
+            for mm in re.finditer(r"prog->(\w+)\s*=\s*(?:\([^()]*\)\s*)?%s\s*\(prog->(\w+),\s*prog\)\s*;" % macro, text):
+                if mm.group(1) != mm.group(2):
+                    raise X.TieBroken("binaries.c:%s" % fn, "member %s is assigned from member %s" % (mm.group(1), mm.group(2)))
+                out.append((mm.group(1), cond.start(1) <= mm.start() < cond.end(1)))
+            if len(out) != len(re.findall(r"\b%s\s*\(" % macro, text)):
+                raise X.TieBroken("binaries.c:%s" % fn, "a use of %s was not understood" % macro)
+            return out
+        lo, li = members("locate_out", "DIFF"), members("locate_in", "ADD")
+        if not re.search(r"#define DIFF\(x, y\) \(\(char \*\)\(x\) - \(char \*\)\(y\)\)", src) or \
+                not re.search(r"#define ADD\(x, y\) \(&\(\(\(char \*\)\(y\)\)\[\(intptr_t\)x\]\)\)", src):
+            raise X.TieBroken("binaries.c:DIFF/ADD", "the relocation macros are no longer `x - y` / `y + x` on char pointers")
+        assigned = sorted(set(re.findall(r"\bp->(\w+)\s*=[^=]", lb)))
+        ops = [re.sub(r"\s+", " ", x.strip()) for x in re.findall(r"\bins_intptr\s*\(([^;]*)\)\s*;", ic)]
+
+        def pairs(xs):
+            return "[" + ", ".join('("%s", %s)' % (a, "true" if b else "false") for a, b in xs) + "]"
+
+        def strs(xs):
+            return "[" + ", ".join('"%s"' % x.replace('"', "'") for x in xs) + "]"
+        return ["/-- C: the pointer-typed members of `program_t` (lib/lpc/program.h), in declaration order -/",
+                "def programPointerMembers : List String := " + strs(ptrs),
+                "/-- C: the other members of `program_t` -/",
+                "def programScalarMembers : List String := " + strs(scalars),
+                "/-- C: `prog->m = DIFF (prog->m, prog)` in locate_out, in order; true = inside `if (prog->type_start)` -/",
+                "def locateOutMembers : List (String × Bool) := " + pairs(lo),
+                "/-- C: `prog->m = ADD (prog->m, prog)` in locate_in -/",
+                "def locateInMembers : List (String × Bool) := " + pairs(li),
+                "/-- C: the members `p->m = ...` that load_binary assigns itself -/",
+                "def loadBinaryAssigns : List String := " + strs(assigned),
+                "/-- C: every operand the code generator stores with `ins_intptr` (lib/lpc/program/icode.c) -/",
+                "def intptrOperands : List String := " + strs(ops)]
+
+    def gen_qsort(self):
+        """the statements of lib/misc/qsort.c that NV/C17/QSort.lean mirrors"""
+        q = open(os.path.join(E.REPO, "lib/misc/qsort.c")).read()
+        q = re.sub(r"\s+", " ", re.sub(r"/\*.*?\*/", "", q, flags=re.S))
+        a = q.index("static void qSort (void *v")
+        body = q[a:]
+        want = [("guard", "if ((left >= right) || (left < 0) || (right > rightmost) || (right < 0)) { return; }"),
+                ("pivot", "doSwap ((char *) v + szleft, (char *) v + (size * ((left + right) / 2)), size);"),
+                ("init", "last = left;"),
+                ("loop", "for (i = left + 1; i <= right; i++)"),
+                ("test", "if ((*compar) ((char *) v + (size * i), (char *) v + szleft) < 0)"),
+                ("move", "doSwap ((char *) v + (size * ++last), (char *) v + (size * i), size);"),
+                ("place", "doSwap ((char *) v + szleft, (char *) v + (size * last), size);"),
+                ("left", "qSort (v, left, last - 1, size, rightmost, compar);"),
+                ("right", "qSort (v, last + 1, right, size, rightmost, compar);"),
+                ("small", "if (nmemb < 2) { return; }"),
+                ("top", "qSort (a, 0, nmemb - 1, size, nmemb - 1, compar);")]
+        pos = [body.find(t) for _, t in want]
+        if -1 in pos or pos != sorted(pos):
+            raise X.TieBroken("qsort.c:qSort", "the statements of qSort/quickSort are no longer the modelled ones, in the modelled order: %s"
+                              % [n for (n, _), p in zip(want, pos) if p < 0] )
+        if not re.search(r"while \(size--\) \{ t = \*one; \*\(one\+\+\) = \*two; \*\(two\+\+\) = t; \}", q):
+            raise X.TieBroken("qsort.c:doSwap", "doSwap no longer exchanges the two elements byte by byte")
+        nstm = len(re.findall(r";", body))
+        return ["/-- C: number of `;` in qSort + quickSort (lib/misc/qsort.c); the model mirrors exactly these statements -/",
+                "def qsortStatements : Nat := %d" % nstm]
 
     # ---- stage C ------------------------------------------------------------
     def prepare(self, ctx):
